@@ -3,7 +3,8 @@
    Termination of the model functions is Coq's own guard check: every model function is a
    structurally recursive Fixpoint (no fuel is needed at body level). *)
 From Coq Require Import String List ZArith Bool.
-From HV Require Import Base.Pos Model.Schema Model.Ast Model.Merge Model.Validate Proofs.TotalProofs.
+From HV Require Import Base.Pos Model.Schema Model.Ast Model.Merge Model.Validate Proofs.TotalProofs
+                       Model.ValueTokens Model.ValueCands Proofs.ValueCandsProofs.
 
 (* validator.BlockLabelsLength indexes LabelRanges[i] for every written label: in bounds on
    every tree that has as many label ranges as labels (parser contract, checked on every file). *)
@@ -19,3 +20,14 @@ Theorem C01_successful_lookup_has_body : forall bs k r dk res,
   (res = LookupSuccessful \/ res = LookupPartiallySuccessful) -> r <> None.
 Proof. exact dependent_body_total. Qed.
 Print Assumptions C01_successful_lookup_has_body.
+
+(* Tuple.CompletionAtPos indexes the declared element constraints (tuple.cons.Elems[nextIdx]) with the slot the
+   recovered text left of the cursor selects - the one behind a comma, the first one behind the opening bracket, the one
+   after the written elements: whenever fewer elements are written than declared, a constraint exists for that slot
+   (no index out of range), whatever the file's bytes are. *)
+Theorem C01_tuple_completion_slot_in_bounds : forall file empties p elems cs le li (s : string),
+  elems <> nil -> (length elems < length cs)%nat ->
+  tuple_at file empties p 0 elems cs 0%Z 0 = TDone le li \/ (exists le0, tuple_at file empties p 0 elems cs le0 0 = TDone le li) ->
+  nth_error cs (if String.eqb s "," then S li else if String.eqb s "[" then 0%nat else length elems) <> None.
+Proof. exact tuple_slot_declared. Qed.
+Print Assumptions C01_tuple_completion_slot_in_bounds.
